@@ -257,6 +257,73 @@ mod verif_kani {
         }
     }
 
+    // @HARNESS id=C06.alc.ext_time tier=quick kind=K props=C06,C19 timeout=900
+    /// EXT_TIME (RFC 5651 section 5.2.2): HET=2 | HEL | Use bits SCT-Hi SCT-Low ERT SLC | the time values present, in that order.
+    /// parse_sct against a decoder written from the RFC text, for EVERY extension slice of 4..=20 bytes: the length must be
+    /// 4 * (1 + number of flags set); the sender current time is present iff SCT-High is, with SCT-Low as its fraction when
+    /// present and 0 otherwise (the SCT-High-only form is legal and must not be dropped: C19 relies on it).
+    #[cfg(kani)]
+    #[kani::proof]
+    #[kani::unwind(6)]
+    #[kani::stub(alloc::fmt::format, stub_format)]
+    #[kani::stub(crate::tools::error::FluteError::new, stub_flute_error_new)]
+    fn ext_time_vs_rfc() {
+        h_ext_time_vs_rfc(kani::any(), kani::any());
+    }
+    pub fn h_ext_time_vs_rfc(buf: [u8; 20], n: usize) {
+        vk_assume!(n >= 4 && n <= 20 && n % 4 == 0);
+        let ext = &buf[..n];
+        let hi = (buf[2] >> 7) & 1;
+        let lo = (buf[2] >> 6) & 1;
+        let ert = (buf[2] >> 5) & 1;
+        let slc = (buf[2] >> 4) & 1;
+        let rfc_len = 4 * (1 + hi as usize + lo as usize + ert as usize + slc as usize);
+        let r = parse_sct(ext);
+        if n != rfc_len {
+            assert!(r.is_err());
+            return;
+        }
+        if hi == 0 {
+            assert!(matches!(r, Ok(None)));
+            return;
+        }
+        let secs = u32::from_be_bytes([buf[4], buf[5], buf[6], buf[7]]) as u64;
+        let frac = if lo == 1 { u32::from_be_bytes([buf[8], buf[9], buf[10], buf[11]]) as u64 } else { 0 };
+        let expected = tools::ntp_to_system_time((secs << 32) | frac);
+        match (r, expected) {
+            (Ok(Some(t)), Ok(e)) => assert!(t == e),
+            (Err(_), Err(_)) => {}
+            _ => assert!(false),
+        }
+        vk_cover!(lo == 0 && n == 8);
+    }
+
+    // @HARNESS id=C06.alc.ext_time_push tier=quick kind=K props=C06,C19 timeout=900
+    /// push_sct: HET=2, HEL=3, Use = SCT-High | SCT-Low, then the 64-bit NTP timestamp of the sender's clock; parses back to it
+    #[cfg(kani)]
+    #[kani::proof]
+    #[kani::unwind(10)]
+    #[kani::stub(alloc::fmt::format, stub_format)]
+    #[kani::stub(crate::tools::error::FluteError::new, stub_flute_error_new)]
+    fn ext_time_push() {
+        h_ext_time_push(kani::any(), kani::any());
+    }
+    pub fn h_ext_time_push(secs: u32, nanos: u32) {
+        vk_assume!(nanos < 1_000_000_000);
+        vk_assume!(secs < 2_085_978_496); // NTP era 0 ends 2036-02-07 (precondition of system_time_to_ntp, unit ntp)
+        let time = std::time::UNIX_EPOCH + std::time::Duration::new(secs as u64, nanos);
+        let mut data: Vec<u8> = vec![0x10, 0, 2, 0];
+        push_sct(&mut data, time);
+        let ntp = tools::system_time_to_ntp(time).unwrap();
+        assert!(data.len() == 16 && data[2] == 5);
+        assert!(data[4] == 2 && data[5] == 3 && data[6] == 0xC0 && data[7] == 0);
+        let b = ntp.to_be_bytes();
+        assert!(data[8] == b[0] && data[9] == b[1] && data[10] == b[2] && data[11] == b[3]);
+        assert!(data[12] == b[4] && data[13] == b[5] && data[14] == b[6] && data[15] == b[7]);
+        let back = parse_sct(&data[4..16]).unwrap();
+        assert!(back == Some(tools::ntp_to_system_time(ntp).unwrap()));
+    }
+
     // @HARNESS id=C06.alc.close_session_pkt tier=quick kind=K props=C06,C08 timeout=900
     /// the explicit close-session packet: A=1, B=0, TOI 0, and nothing else ever sets A (new_alc_pkt passes `false`)
     #[cfg(kani)]
